@@ -139,7 +139,15 @@ int main(int argc, char** argv) {
       }
       else if (op < 26) {
         int u = (int)g.below(NU); uint8_t lgk = (uint8_t)g.range(5, maxlgk); float p = PS[g.below(5)];
-        un[u].reset(new theta_union(theta_union::builder().set_lg_k(lgk).set_p(p).set_seed(sd).set_resize_factor((resize_factor)g.below(4)).build()));
+        // an existing variable is re-initialised by move assignment from the builder's temporary or by copy assignment
+        // from a named union (the target has another lg_k / emptiness / theta); otherwise a new object
+        {
+          auto bld = theta_union::builder().set_lg_k(lgk).set_p(p).set_seed(sd).set_resize_factor((resize_factor)g.below(4));
+          const int how = un[u] ? (int)g.below(3) : 0;
+          if (how == 1) *un[u] = bld.build();
+          else if (how == 2) { theta_union fresh = bld.build(); *un[u] = fresh; }
+          else un[u].reset(new theta_union(bld.build()));
+        }
         uint64_t startH = p < 1 ? (uint64_t)((double)MAXT * p) : MAXT;
         Ev("UNew").i("u", u).i("k", 1L << lgk).h("startH", startH).emit();
       }
